@@ -53,7 +53,8 @@ STMT_END = {}       # (abs path, first line of a multi-line statement in a site 
 def _build_tables():
     seen = set()
     for r in ROWS:
-        if r["valueKind"] in ("keyedCache", "publishedIncomplete", "transientEntries", "checkThenGet", "modeToggle") and r.get("first_line"):
+        if r["valueKind"] in ("keyedCache", "publishedIncomplete", "transientEntries", "checkThenGet", "modeToggle",
+                              "readModifyWrite") and r.get("first_line"):
             # functions that fill a module-level cache: every line is a yield point in the "sitelines" scope
             SITEFUNCS.add((os.path.abspath(os.path.join(SW.repo_dir(), r["path"])), r["first_line"]))
         if not r.get("events") or r["valueKind"] not in ("perCall", "ownerName"):
@@ -424,6 +425,14 @@ def _build_shape(name):
              "class Customer(Structure):\n    name: str\n    visits: int = 0\n"
              "    address: Address = Address(city='Paris', zip_code='75001')\n", ns)  # pylint: disable=exec-used
         return Shape(name, ns["Customer"])
+    if name == "unique_field":
+        # the opt-in uniqueness feature (TypedPyDefaults.uniqueness_features_enabled): a registry on the shared Field object
+        class Person(Structure):
+            ssid = String(is_unique=True)
+            n = Integer
+            _required = []
+        return Shape(name, Person, extra={
+            "joint_key": "shared-<container>:structures.py:UniqueMixin.__manage_uniqueness_for_field__"})
     if name == "warm_ser":
         # scalar SerializableFields: their deserialize / serialize / __set__ run on the field object shared by all instances
         class Booking(Structure):
@@ -695,6 +704,8 @@ def gen_value(rng, sname, field, bad=0.2):
         return {"d": {"code": "C" + str(_BASE[0]), "digits": _int(rng, 0.0)}} if field in ("currency", "fallback") else _int(rng, 0.0)
     if sname == "shared_default":
         return {"name": "n" + str(_BASE[0]), "visits": _int(rng, 0.0)}[field]
+    if sname == "unique_field":
+        return "id%d" % rng.randint(0, 2) if field == "ssid" else _int(rng, 0.0)
     if sname == "warm_ser":
         # documents: everything as the strings / numbers a JSON document carries
         return {"day": lambda: "2024-%02d-%02d" % (rng.randint(1, 12), rng.randint(1, 28)),
@@ -868,6 +879,8 @@ def reset_caches(sh):
             f._name = None          # the state right after the class definition
         if getattr(f, "_serialize", None) is not None:
             f._serialize = None
+        if isinstance(getattr(f, "_ALL_INSTANCES", None), dict):
+            f._ALL_INSTANCES.clear()        # the uniqueness registry of an is_unique field: empty, as after the definition
         its = getattr(f, "items", None)
         for x in (its if isinstance(its, (list, tuple)) else [its]):
             walk(x, False)
@@ -1210,6 +1223,7 @@ def sequential(case):
     n = len(case["threads"])
     alone = [None] * n
     allowed = [[] for _ in range(n)]
+    vectors = []        # the result vector of every sequential order: a concurrent run must reproduce ONE of them as a whole
     for perm in itertools.permutations(range(n)):
         sh = run_shape(case["shape"])
         reset_caches(sh)
@@ -1229,7 +1243,14 @@ def sequential(case):
                 alone[i] = r
             if r not in allowed[i]:
                 allowed[i].append(r)
+        vec = [r for _, r in sorted(outs, key=lambda x: x[0])]
+        if vec not in vectors:
+            vectors.append(vec)
+    _VECTORS[id(allowed)] = vectors
     return alone, allowed
+
+
+_VECTORS = {}
 
 
 def enumerate_runs(case, scope, max_pre, cap, rng):
@@ -1377,6 +1398,7 @@ def model_as_canon(sh, th, mo):
 def run_impl(case):
     rng = random.Random(case["sseed"])
     seq, allowed = sequential(case)
+    vectors = _VECTORS.pop(id(allowed))
     stream = case["stream"]
     if stream in ("A", "E"):
         runs = enumerate_runs(case, case.get("yield", "events"), case["max_pre"], case["cap"], rng)
@@ -1386,17 +1408,21 @@ def run_impl(case):
     nonseq = 0
     for sch, r in runs:
         bad = [i for i in range(len(seq)) if r.results[i] not in allowed[i]]
+        joint = not bad and r.results not in vectors     # every thread explainable, but by DIFFERENT sequential orders
+        if joint:
+            bad = list(range(len(seq)))
         nonseq += 1 if bad else 0
         msched = [tid for tid, _ in r.events] if stream == "A" else None
         mode_dev = getattr(r, "mode_dev", None) or None
         k = json.dumps([msched, r.results], sort_keys=True) if stream == "A" else json.dumps([r.results, r.conflicts(), mode_dev], sort_keys=True)
         if k not in distinct:
             per_thread = [[e for t, e in r.events if t == i] for i in range(len(seq))] if stream == "A" else None
-            distinct[k] = {"sched": sch, "res": r.results, "bad": bad, "conflicts": r.conflicts(), "mode": mode_dev,
+            distinct[k] = {"sched": sch, "res": r.results, "bad": bad, "joint": joint, "conflicts": r.conflicts(), "mode": mode_dev,
                            "msched": msched, "events": per_thread, "count": 0,
                            "wsites": sorted({(r.cell_ids.get(oid, -1), key) for key, oid, _, _ in r.writes}) if stream == "A" else None}
         distinct[k]["count"] += 1
-    return {"seq": seq, "allowed": allowed, "runs": len(runs), "nonseq": nonseq, "outcomes": list(distinct.values())}
+    return {"seq": seq, "allowed": allowed, "vectors": vectors, "runs": len(runs), "nonseq": nonseq,
+            "outcomes": list(distinct.values())}
 
 
 def line(case, impl):
@@ -1479,6 +1505,21 @@ def oracle(case, impl):
         i = o["bad"][0]
         th = case["threads"][i]
         got = o["res"][i]
+        if o.get("joint"):
+            # each thread's result occurs in SOME sequential order, but no single order produces all of them together
+            # (e.g. two operations that both behave as if they had been first)
+            def stripped(vec):
+                return [dict(r, msg=_strip_names(r["msg"]), field=None) if "err" in r else r for r in vec]
+            only_names = stripped(o["res"]) in [stripped(v) for v in impl.get("vectors", [])]
+            j = next((j for j, r in enumerate(o["res"]) if "err" in r and r != impl["seq"][j]), i)
+            key = (f"residual-name-in-message:{case['threads'][j]['op']}" if only_names else
+                   shape(case["shape"]).extra.get("joint_key") or f"no-common-order:{case['shape']}")
+            if key not in seen:
+                seen.add(key)
+                fails.append((key, f"shape {case['shape']} threads {json.dumps(case['threads'])} schedule "
+                                   f"{json.dumps(o['sched'])}: results {json.dumps(o['res'])[:300]} occur in sequential orders, "
+                                   f"but in no single one together (sequential result vectors: {json.dumps(impl.get('vectors'))[:300]})"))
+            continue
         if (not o["conflicts"] and "err" in got
                 and any("err" in a and a["err"] == got["err"] and _strip_names(a["msg"]) == _strip_names(got["msg"])
                         for a in impl["allowed"][i])):
@@ -1821,6 +1862,17 @@ def gen_cases(rng, tier, scale=1.0):
         cases.append({"stream": "E", "shape": "warm_ser", "threads": ths, "sseed": rng.randrange(1 << 30), "max_pre": 1,
                       "cap": 400, "yield": "serlines",
                       "history": [{"op": rng.choice(["construct", "deserialize"]), "kw": dict(hist, n=0)}]})
+    # is_unique fields with the uniqueness feature switched on: EQUAL (and different) values in the threads; every line of
+    # the registry function (translator row) is a yield point; the result VECTOR must be that of one sequential order
+    for k in range(1 if quick else 4):
+        ths = []
+        same = "id%d" % rng.randint(0, 2)
+        for i in range(2 if k < 3 else 3):
+            _BASE[0] = i
+            ths.append({"op": rng.choice(["construct", "deserialize"]),
+                        "kw": {"ssid": same if (k % 2 == 0 or i == 0) else "other%d" % i, "n": _int(rng, 0.0)}})
+        cases.append({"stream": "E", "shape": "unique_field", "threads": ths, "sseed": rng.randrange(1 << 30), "max_pre": 1,
+                      "cap": 300, "yield": "sitelines", "modes": {"uniqueness_features_enabled": True}})
     # BYTECODE-level pre-emption inside the functions of the shared-write table (CPython's real granularity): every
     # attribute / item / global access and call of a site function is a yield point; exhaustive for one pre-emption
     # (quick) / two (thorough); oracle only
